@@ -163,10 +163,12 @@ def rule_span(ctx):
     ctx.check(ok, R, f, "radices %s" % ast.unparse(loops[0].iter), "m radices n, n-1, .., n-m+1: one per prefix position, each the number of still unused elements",
               "the radix loop `%s` is not n, n-1, .. for m positions" % ast.unparse(loops[0].iter), loops[0])
     k = loops[0].target.id
-    digs = [s for s in loops[0].body if isinstance(s, ast.Assign) and ast.unparse(s.value) == "j %% %s" % k]
     app = [s for s in loops[0].body if isinstance(s, ast.Expr) and isinstance(s.value, ast.Call) and call_attr(s.value) == "append"]
-    ctx.check(len(digs) == 1 and len(app) == 1 and ast.unparse(app[0].value.args[0]) == ast.unparse(digs[0].targets[0]), R, f, "one digit per radix",
-              "one digit is appended per radix", "the digit bookkeeping changed")
+    Fi_ = Facts(f)
+    # the appended digit, through a local or directly: j mod the radix
+    dig_nf = str(Fi_.at(app[0], app[0].value.args[0])) if len(app) == 1 else ""
+    ctx.check(len(app) == 1 and dig_nf == "(j)%%(%s)" % k, R, f, "one digit per radix",
+              "one digit (j mod radix) is appended per radix", "the digit bookkeeping changed: appended `%s`" % dig_nf)
     pf = ctx.fn("combinatorics:compute_jth_permutation_prefix")
     Fp = Facts(pf)
     ctx.check(Fp.returns() == ["construct_permutation(compute_jth_inversion_sequence(n, m, j), n)"], R, pf, "prefix = construct(inversion)",
@@ -461,6 +463,11 @@ def rule_siblings(ctx):
     rets = [ast.unparse(s.value) for s in statements(crp.node) if isinstance(s, ast.Return)]
     prods = [ast.unparse(s) for s in statements(crp.node) if isinstance(s, (ast.Assign, ast.AugAssign)) and "factorial" in ast.unparse(s)]
     guards = [ast.unparse(s.test) for s in statements(crp.node) if isinstance(s, ast.If)]
+    # the accumulator may carry any name
+    import re as _re13
+    accn = _re13.match(r"factorial\(sum\(counters\)\) // ([A-Za-z_][A-Za-z0-9_]*)$", rets[0]).group(1) if len(rets) == 1 and _re13.match(r"factorial\(sum\(counters\)\) // ([A-Za-z_][A-Za-z0-9_]*)$", rets[0]) else "d"
+    rets = [r_.replace("// " + accn, "// d") for r_ in rets]
+    prods = [_re13.sub(r"(?<![A-Za-z0-9_])%s(?![A-Za-z0-9_])" % accn, "d", p_) for p_ in prods]
     ctx.check(rets == ["factorial(sum(counters)) // d"] and prods in (["d = d * factorial(c)"], ["d *= factorial(c)"]) and guards in ([], ["c > 1"], ["c > 0"], ["c >= 2"], ["c >= 1"]) and
               Fc.iters() == ["counters"], R, crp, "multinomial", "(sum c)! / prod c!", "count_remaining_permutations changed: %s %s %s" % (rets, prods, guards))
     cpc = ctx.fn("combinatorics:count_permutations_with_copies")
